@@ -13,7 +13,6 @@ import math
 import re
 import struct
 import sys
-import threading
 from datetime import date, datetime, time, timedelta, timezone
 from fractions import Fraction
 
@@ -198,32 +197,42 @@ class Batch:
         self.items.append((target, fname, arg, impl))
         return len(self.items) - 1
 
-    def run(self, ctx, res, threads=8):
+    def run(self, ctx, res, procs=8):
+        """all model calls go through ctx.model.batch; the list is cut into chunks that are served by forked
+        worker processes (the wire encoding/decoding on the Python side is the bottleneck, not the driver)"""
+        global _REQS, _MODEL
         if not ctx.model:
             self.outs = [None] * len(self.items)
             return
         reqs = [(f, a) for _, f, a, _ in self.items]
         n = len(reqs)
-        outs = [None] * n
-        chunk = max(2000, (n + threads - 1) // threads)
-        errs = []
-
-        def work(lo):
+        if n < 20000:
+            outs = ctx.model.batch(reqs)
+        else:
+            # round-robin split (case i goes to worker i mod procs): expensive cases are spread evenly, and the
+            # driver's start-up cost is paid once per worker
+            import multiprocessing
+            _REQS, _MODEL = reqs, ctx.model
             try:
-                outs[lo:lo + chunk] = ctx.model.batch(reqs[lo:lo + chunk])
-            except Exception as e:  # noqa: BLE001
-                errs.append(e)
-
-        ts = [threading.Thread(target=work, args=(lo,)) for lo in range(0, n, chunk)]
-        for t in ts:
-            t.start()
-        for t in ts:
-            t.join()
-        if errs:
-            raise errs[0]
+                with multiprocessing.get_context("fork").Pool(processes=procs) as pool:
+                    parts = pool.map(_serve, [(k, procs) for k in range(procs)])
+            finally:
+                _REQS = None
+            outs = [None] * n
+            for k, part in enumerate(parts):
+                outs[k::procs] = part
+            ctx.model.calls += n
         self.outs = outs
         for (target, f, a, impl), m in zip(self.items, outs):
             res.corr(target, [f, a], impl, m)
+
+
+_REQS = None
+_MODEL = None
+
+
+def _serve(span):
+    return _MODEL.batch(_REQS[span[0]::span[1]])
 
 
 class Run:
@@ -583,11 +592,7 @@ def sec_offsets(R):
     from icalendar.prop import vUTCOffset
     res, ctx = R.res, R.ctx
     rng = common.rng_for(ctx.seed, "c03-offset")
-    if ctx.big or ctx.level:
-        vals = range(-86399, 86400)
-    else:
-        vals = sorted(set(range(-3700, 3701)) | set(range(-86399, 86400, 7)) | set(range(-86400 + 60, 86400, 60))
-                      | {-86399, 86399} | set(range(86399 - 70, 86400)) | set(range(-86399, -86399 + 70)))
+    vals = range(-86399, 86400)
     for v in vals:
         res.dist("offset:value")
         res.count(("offset", v), nontrivial=True)
@@ -698,11 +703,14 @@ def gen_ints(ctx):
         for d in (-1, 0, 1):
             vals.add(10 ** k + d)
             vals.add(-(10 ** k) + d)
-    for k in (100, 1000, 4298, 4299, 4300, 4301):
+    # around CPython's 4300-digit limit (a 4300-digit conversion costs the extracted model ~1.5 s: few in quick)
+    for k in ((100, 1000, 4298, 4299, 4300, 4301) if ctx.big else (100, 1000)):
         vals.add(10 ** k)
         vals.add(10 ** k - 1)
         vals.add(-(10 ** k))
         vals.add(-(10 ** k) + 1)
+    vals.add(10 ** 4300 - 1)
+    vals.add(-(10 ** 4300))
     for _ in range(20000 if ctx.big else 4000 * (1 + 2 * ctx.level)):
         bits = rng.choice((8, 16, 31, 32, 33, 63, 64, 65, 128, 200))
         vals.add(rng.randrange(-(1 << bits), 1 << bits))
@@ -735,7 +743,9 @@ def sec_ints(R):
             R.fail("int: to_ical output is not an RFC integer denoting the value", str(z)[:60], t[:60])
     rng = common.rng_for(ctx.seed, "c03-int-text")
     texts = ["+1234567890", "-1234567890", "007", "+0", "-0", "+", "-", "", "1.5", "0x10", " 1", "1 ", "1_000", "１２", "1e3",
-             "--1", "+-1", "2147483648", "-2147483649", "0" * 4300, "0" * 4301, "+" + "9" * 4300, "9" * 4301]
+             "--1", "+-1", "2147483648", "-2147483649", "0" * 4300, "0" * 4301, "-" + "0_" * 4299 + "0", " " * 50 + "0" * 4300]
+    if ctx.big:
+        texts += ["+" + "9" * 4300, "9" * 4301]
     for _ in range(20000 if ctx.big else 3000):
         texts.append(rng.choice(("", "", "+", "-")) + "0" * rng.choice((0, 0, 1, 5)) + str(rng.randrange(10 ** rng.randrange(1, 40))))
     for t in texts:
@@ -1014,7 +1024,7 @@ def sec_floats(R):
                 R.fail("float: to_ical output is not RFC 5545 float", x.hex(), t)
         else:
             fr = Fraction(t)
-            if (fr.numerator / fr.denominator).hex() != x.hex():     # int / int is correctly rounded
+            if fr.numerator / fr.denominator != x:     # int / int is correctly rounded; -0 denotes 0
                 R.fail("float: the decimal written by to_ical is not nearest to the value", x.hex(), t)
     # GEO = float ";" float
     geo = [(37.386013, -122.082932), (0.0, 0.0), (-90.0, 180.0), (1e-5, 1e22), (12.5, 1e-7)]
@@ -1047,7 +1057,7 @@ def sec_floats(R):
         back = obs(lambda: float(vFloat.from_ical(t)))
         fr = Fraction(t)
         want = fr.numerator / fr.denominator        # int / int true division is correctly rounded
-        if is_err(back) or back.hex() != want.hex():
+        if is_err(back) or back != want:
             R.fail("float grammar: a grammar-valid FLOAT text is not read as the nearest double", t, back, want.hex())
     for t in ["", "1e5", "inf", "nan", "1,5", "1.", ".5", "1_0.5", " 1.5", "1.5 ", "0x1p3", "１.５"]:
         res.dist("float:malformed-or-near (implementation only)")
@@ -1065,17 +1075,24 @@ SECTIONS = [sec_int_builtin, sec_dates, sec_times, sec_datetimes, sec_durations,
 
 def run(ctx, res):
     res.rule = ("per value type: every value of the domain sampled as DESIGN.md 6/C03 says (dates: 1-in-97 stride + every "
-                "month end of years 1-9999 [all 3.65 M in thorough]; every second of the day; UTC offsets: every second "
-                "within 1 h 1 min 40 s of zero, every 7th beyond, every whole minute [all in thorough]; durations on the "
+                "month end of years 1-9999 [all 3.65 M in thorough]; every second of the day; every UTC offset of whole seconds with "
+                "|offset| < 24 h; durations on the "
                 "boundary lattice + random up to 46 bits + the timedelta limits; integers at powers of 2 and 10 +-2, the "
                 "4300-digit limit, random up to 200 bits; random octet strings and Unicode payloads for base64), each through "
                 "to_ical, from_ical and vDDDTypes.from_ical; grammar-generated texts per type with the value the RFC assigns; "
                 "a separate malformed/near-miss stream per type (correspondence only). non-trivial = every value/text case "
                 "except the empty/zero ones and the malformed stream; distinct by (type, value or text)")
+    import time as _time
     R = Run(ctx, res)
+    walls = {}
     for sec in SECTIONS:
+        t0 = _time.time()
         sec(R)
+        walls[sec.__name__] = round(_time.time() - t0, 2)
+    t0 = _time.time()
     R.finish()
+    walls["model batch (%d calls)" % len(R.B.items)] = round(_time.time() - t0, 2)
+    res.extra["section_wall_s"] = walls
     from icalendar.prop import vDuration, vDatetime, vUTCOffset
     res.sample({"type": "DURATION", "value_s": -93784, "text": c_text(vDuration(timedelta(seconds=-93784)).to_ical()),
                 "back": c_td(vDuration.from_ical(c_text(vDuration(timedelta(seconds=-93784)).to_ical())))})
